@@ -1,10 +1,12 @@
 """Root verification of one function against its sidecar contract."""
+import os
+
 import z3
 
 from .contracts import CallCtx, ObjT, View
 from .engine import EngineError, ok, rs
 from .state import State
-from .values import ClassRef, ExcV, HObj, Opaque, Ref, fresh_name
+from .values import ClassRef, ExcV, HObj, Opaque, Ref, fresh_name, is_sym
 
 
 class VerifyMixin:
@@ -90,6 +92,89 @@ class VerifyMixin:
                 res['normal_paths'] += r['normal_paths']
                 res['obligations'] += r['obligations']
         return res
+
+    def guarded_keys(self, st):
+        """fields under a monitor of a shared object: every acquisition havocs them, callers never rely on them"""
+        out = set()
+        for oid in st.shared:
+            h = st.heap.get(oid)
+            if h is None or h.kind != 'obj':
+                continue
+            mons = [m for ci in self.repo.mro(h.cls) for m in self.registry.monitors.get(ci.qualname, ())]
+            for mon in mons:
+                for f in mon.fields:
+                    out.add(('f', oid, f))
+                for nfield, nfields in mon.nested.items():
+                    nv = h.fields.get(nfield)
+                    if isinstance(nv, Ref):
+                        for f in nfields:
+                            out.add(('f', nv.oid, f))
+                        out.add(('*', nv.oid))
+        return out
+
+    def declared_frame(self, c, finfo, args, self_val, pre, exc_key=None):
+        s = pre.fork()
+        before = self.heap_snapshot(s)
+        ctx = CallCtx(self, finfo, args, self_val, pre.fork(), s, None, None, 0)
+        if exc_key is None:
+            if c.effects is not None:
+                c.effects(ctx, s)
+        else:
+            eff = c.raise_effects.get(exc_key)
+            if eff is not None:
+                eff(ctx, s, ExcV(exc_key, ()))
+        after = self.heap_snapshot(s)
+        declared = {k for k in after if k not in before or not self.same_value_identity(before[k], after[k])}
+        declared |= set(self.modifies_keys(c, ctx, s))
+        if finfo.name == '__init__' and isinstance(self_val, Ref):
+            declared |= {k for k in after if k[0] == 'f' and k[1] == self_val.oid}    # a constructor initialises its object
+        return declared
+
+    def root_frame_obligations(self, c, finfo, args, self_val, pre, terminals):
+        pre_snap = self.heap_snapshot(pre)
+        guarded = self.guarded_keys(pre)
+        decl_cache = {}
+        for o, s1 in terminals:
+            if o[0] in ('normal', 'return'):
+                key = None
+            elif o[0] == 'raise':
+                key = None
+                for k in c.raises:
+                    if k == o[1].cls or (o[1].cls != '$stored' and k != '$stored' and self.exc_is_subclass(o[1].cls, k)):
+                        key = k
+                        break
+                key = key or o[1].cls
+            else:
+                continue
+            if key not in decl_cache:
+                try:
+                    decl_cache[key] = self.declared_frame(c, finfo, args, self_val, pre, key)
+                except EngineError:
+                    raise
+                except Exception as e:
+                    raise EngineError(f'effects of {c.target} cannot be evaluated for the frame check: {type(e).__name__}: {e}')
+            declared = decl_cache[key]
+            post = self.heap_snapshot(s1)
+            for k, pv in pre_snap.items():
+                if k not in post or k in declared or k in guarded or ('*', k[1]) in guarded:
+                    continue
+                nv = post[k]
+                if self.same_value_identity(pv, nv):
+                    continue
+                goal = False
+                if is_sym(pv) and is_sym(nv) and pv.sort() == nv.sort():
+                    if not self.feasible(s1, nv != pv):
+                        continue
+                    goal = (nv == pv)
+                self.oblige(s1, 'frame.' + self.frame_label(pre, k) + ('' if key is None else f'.on_{key.split(":")[-1]}'), goal, kind='frame',
+                            line=finfo.lineno, note='modified but not declared by the contract (effects): callers would reason with the stale value')
+
+    def frame_label(self, st, k):
+        if k[0] == 'g':
+            return 'ghost.' + '.'.join(str(x) if not isinstance(x, tuple) else '_'.join(str(y) for y in x) for x in k[1:])
+        h = st.heap.get(k[1])
+        cn = h.cls.name if h is not None and h.cls is not None else (h.kind if h is not None else 'obj')
+        return f'{cn}.{k[2]}' if len(k) > 2 else f'{cn}.items'
 
     def _verify_contract(self, c, suffix):
         finfo = self.repo.func(c.target)
@@ -196,6 +281,11 @@ class VerifyMixin:
                         self.oblige(s1, f'raises.{handler[0]}.{nm}', f, kind='post', line=finfo.lineno)
             else:
                 raise EngineError('break/continue at function level')
+        # frame: what the function modifies (of the objects that existed at entry, and of the ghost state) must be
+        # declared by the contract's effects -- callers are checked against the contract only, so an undeclared
+        # modification would let them reason with stale values
+        if not c.top_level and not c.inline and os.environ.get('PYVC_NO_FRAME') != '1':
+            self.root_frame_obligations(c, finfo, args, self_val, pre, terminals)
         # must-fail twins: wrong variants of postconditions have to be refutable on some path
         twin_goals = {}
         for o, s1 in terminals:
